@@ -326,6 +326,9 @@ struct PendingEntry<'a> {
     ///
     /// For merge-derived entries, this is the `<<` entry location.
     reference_location: Location,
+    /// Where the key itself is referenced: the key token, or the alias / merge entry through
+    /// which the pair was reached.
+    key_reference_location: Location,
 }
 
 /// Return the span lengths of key and value for a one-entry map encoded in `events`.
@@ -735,6 +738,7 @@ fn collect_entries_from_map<'a>(
                         key,
                         value,
                         reference_location,
+                        key_reference_location: reference_location,
                     });
                 }
             }
@@ -2097,6 +2101,7 @@ impl<'de, 'e> de::Deserializer<'de> for YamlDeserializer<'de, 'e> {
                 seed: K,
                 events: Vec<Ev<'de2>>,
                 kemn: bool,
+                key_reference_location: Location,
             ) -> Result<K::Value, Error>
             where
                 K: de::DeserializeSeed<'de2>,
@@ -2105,6 +2110,8 @@ impl<'de, 'e> de::Deserializer<'de> for YamlDeserializer<'de, 'e> {
 
                 // Get location from replay events for error reporting.
                 let location = replay.reference_location();
+                // A key reached through an alias or a merge is *used* at that alias / merge entry.
+                replay.ref_override = Some(key_reference_location);
 
                 let de = YamlDeserializer::<'de2, '_> {
                     ev: &mut replay,
@@ -2161,6 +2168,7 @@ impl<'de, 'e> de::Deserializer<'de> for YamlDeserializer<'de, 'e> {
                             mut key,
                             mut value,
                             reference_location,
+                            key_reference_location,
                         } = entry;
                         let fingerprint = key.take_fingerprint();
                         let location = key.location();
@@ -2261,7 +2269,12 @@ impl<'de, 'e> de::Deserializer<'de> for YamlDeserializer<'de, 'e> {
                             }
                         }
 
-                        let key_value = self.deserialize_recorded_key(key_seed, events, kemn)?;
+                        let key_value = self.deserialize_recorded_key(
+                            key_seed,
+                            events,
+                            kemn,
+                            key_reference_location,
+                        )?;
                         self.have_key = true;
                         self.pending_value = Some((value_events, reference_location));
 
@@ -2297,6 +2310,7 @@ impl<'de, 'e> de::Deserializer<'de> for YamlDeserializer<'de, 'e> {
                             return Ok(None);
                         }
                         Some(_) => {
+                            let key_reference_location = self.ev.reference_location();
                             let mut key_node = capture_node(self.ev)?;
                             if is_merge_key(&key_node) {
                                 // Preserve where the merge value is *referenced* (use-site).
@@ -2374,6 +2388,7 @@ impl<'de, 'e> de::Deserializer<'de> for YamlDeserializer<'de, 'e> {
                                     key: key_node,
                                     value: value_node,
                                     reference_location,
+                                    key_reference_location,
                                 }]);
                                 continue;
                             } else {
@@ -2402,8 +2417,12 @@ impl<'de, 'e> de::Deserializer<'de> for YamlDeserializer<'de, 'e> {
                                     }
                                 }
 
-                                let key_value =
-                                    self.deserialize_recorded_key(key_seed, events, kemn_direct)?;
+                                let key_value = self.deserialize_recorded_key(
+                                    key_seed,
+                                    events,
+                                    kemn_direct,
+                                    key_reference_location,
+                                )?;
                                 self.have_key = true;
                                 self.pending_value = None; // value will be read live
 
